@@ -30,3 +30,11 @@ Qed.
 
 Lemma existsb_app_mono {A} (f : A -> bool) l x : existsb f l = true -> existsb f (l ++ [x]) = true.
 Proof. intros H. rewrite existsb_app, H. reflexivity. Qed.
+
+Lemma lookup_In_gen {V} k (m : amap V) v : lookup k m = Some v -> In (k, v) m.
+Proof.
+  induction m as [|[k' v'] m IH]; simpl; [discriminate|].
+  destruct (beqb k' k) eqn:E.
+  - intros H; inversion H; subst. apply beqb_eq in E. subst k'. left; reflexivity.
+  - intros H. right. exact (IH H).
+Qed.
